@@ -49,9 +49,9 @@ fn plan(prop: &str, tier: &str, scale: f64) -> Plan {
             p.w1_large /= 2;
             p.w2_n = 0;
             p.w3 = if thorough {
-                vec![(1, 200_000, 0), (2, 140_000, 0), (4, 300_000, 1), (7, 500_000, 1), (3, 70_000, 0), (1, 80_000, 2), (1, 80_000, 3)]
+                vec![(1, 200_000, 0), (2, 140_000, 0), (4, 300_000, 1), (7, 500_000, 1), (3, 70_000, 0), (1, 80_000, 2), (2, 140_000, 2), (3, 210_000, 2), (1, 80_000, 3), (2, 140_000, 3)]
             } else {
-                vec![(1, 70_000, 0), (4, 140_000, 1), (2, 70_000, 0), (1, 36_000, 2), (1, 36_000, 3)]
+                vec![(1, 70_000, 0), (4, 140_000, 1), (2, 70_000, 0), (1, 36_000, 2), (2, 70_000, 2), (1, 36_000, 3), (2, 70_000, 3)]
             };
         }
         "C07" => {
@@ -59,7 +59,7 @@ fn plan(prop: &str, tier: &str, scale: f64) -> Plan {
             p.w3 = if thorough {
                 vec![(1, 70_000, 0), (4, 280_000, 1), (5, 200_000, 0), (1, 70_000, 2), (2, 140_000, 2), (1, 70_000, 3), (2, 140_000, 3)]
             } else {
-                vec![(1, 40_000, 0), (3, 100_000, 1), (1, 36_000, 2), (1, 36_000, 3)]
+                vec![(1, 40_000, 0), (3, 100_000, 1), (1, 36_000, 2), (2, 70_000, 2), (1, 36_000, 3), (2, 70_000, 3)]
             };
         }
         "C09" | "C10" | "C14" => {
@@ -234,6 +234,29 @@ fn main() {
     let stall_secs: u64 = arg(&args, "--stall-secs").and_then(|s| s.parse().ok()).unwrap_or(20);
     let t0 = Instant::now();
     install_quiet_panic_hook();
+
+    // ------------------------------------------------------------ deep-tree mode (run by the driver in a child process)
+    if let Some(d) = arg(&args, "--deep").and_then(|s| s.parse::<usize>().ok()) {
+        let h = std::thread::Builder::new().stack_size(2 << 20).spawn(move || ixv::exec::guarded(|| run_deep(prop, d))).unwrap();
+        match h.join() {
+            Ok(Ok(Ok(n))) => {
+                println!("DEEP-OK depth={} observations={}", d, n);
+                std::process::exit(0);
+            }
+            Ok(Ok(Err((kind, detail)))) => {
+                println!("DEEP-FINDING sig=deep/{} detail={}", kind, detail);
+                std::process::exit(1);
+            }
+            Ok(Err(p)) => {
+                println!("DEEP-FINDING sig=deep/panic detail=a valid call on a deep tree panicked: {}", p);
+                std::process::exit(1);
+            }
+            Err(_) => {
+                println!("DEEP-INCONCLUSIVE worker thread could not be joined");
+                std::process::exit(2);
+            }
+        }
+    }
 
     // ------------------------------------------------------------ replay mode
     if let Some(file) = arg(&args, "--replay") {
